@@ -67,7 +67,8 @@ PUB_ENC = [(par, pe) for par in ("named_curve", "explicit") for pe in ("uncompre
 STR_ENC = ["raw", "uncompressed", "compressed", "hybrid"]
 MAL_ENC = (["priv:%s:%s:uncompressed" % (f, p) for f in ("ssleay", "pkcs8") for p in ("named_curve", "explicit")]
            + ["pub:%s:%s" % (p, e) for p, e in (("named_curve", "uncompressed"), ("named_curve", "compressed"), ("explicit", "uncompressed"),
-                                                ("named_curve", "hybrid"))]
+                                                ("named_curve", "hybrid"), ("explicit", "compressed"))]
+           + ["priv:ssleay:explicit:compressed"]
            + ["str:" + e for e in STR_ENC] + ["privstr"])
 QUICK_MUT_CURVES = ("NIST256p", "NIST192p", "SECP256k1", "BRAINPOOLP160r1", "SECP112r1", "NIST521p")
 
